@@ -87,17 +87,17 @@ def twin_verbs():
     login = {1: [["connect", 1], ["send", 1, "USER u1"], ["send", 1, "PASS pw1"]], 2: [["connect", 2], ["send", 2, "USER u2"]],
              3: [["connect", 3], ["send", 3, "USER anonymous"]]}
     args = {"CWD": {1: "d", 2: "/h", 3: "/"}, "DELE": {1: "f", 2: "f", 3: "pub"}, "RMD": {1: "d/e", 2: "/h", 3: "/"}, "MKD": {1: "zz", 2: "zz", 3: "zz"},
-            "RNFR": {1: "f", 2: "f", 3: "pub"}, "MLST": {1: "d", 2: "f", 3: "pub"}, "RETR": {1: "f", 2: "f", 3: "pub"}, "STOR": {1: "n1", 2: "n2", 3: "n3"}}
+            "RNFR": {1: "f", 2: "f", 3: "pub"}, "MLST": {1: "d", 2: "f", 3: "pub"}, "RETR": {1: "f", 2: "f", 3: "pub"}, "STOR": {1: "nn", 2: "nn", 3: "nn"}, "APPE": {1: "f", 2: "f", 3: "pub"}}
     out = []
     for a, b in ((1, 2), (2, 1), (1, 3), (3, 1)):
         for verb, ar in args.items():
-            for j in (1, 2, 3):
+            for j in (1, 2, 3, 4):
                 def cmd(s):
-                    if verb in ("RETR", "STOR"):
-                        return [["send", s, "EPSV"], ["dconnect", s], ["send", s, verb + " " + ar[s]]] + ([["dsend", s, [40 + s]]] if verb == "STOR" else []) + [["deof", s]]
+                    if verb in ("RETR", "STOR", "APPE"):
+                        return [["send", s, "EPSV"], ["dconnect", s], ["send", s, verb + " " + ar[s]]] + ([["dsend", s, [40 + s]]] if verb != "RETR" else []) + [["deof", s]]
                     return [["send", s, verb + " " + ar[s]]]
                 ca, cb = cmd(a), cmd(b)
-                k = 2 if verb in ("RETR", "STOR") else 0
+                k = 2 if verb in ("RETR", "STOR", "APPE") else 0
                 st = login[a] + login[b] + ca[:k] + [["gate", a, None, j], ca[k]] + cb + [["release", a]] + ca[k + 1:] + [["send", a, "PWD"], ["send", b, "PWD"],
                      ["send", a, "MLST " + ar[a]], ["send", b, "MLST " + ar[b]]]
                 out.append(st)
@@ -158,6 +158,34 @@ def slow_logins():
     return out
 
 
+TWIN_USERS = [
+    {"id": "u1", "login": "u1", "pw": "pw1", "max": 0, "perms": [], "home": [], "base": ["A"]},
+    {"id": "u2", "login": "u2", "pw": "", "max": 0, "perms": [], "home": [], "base": ["B"]},
+]
+TWIN_TREE = {"d": [["A"], ["A", "d"], ["B"], ["B", "d"]], "f": [{"p": ["A", "f"], "c": [1, 2, 3]}, {"p": ["B", "f"], "c": [8, 9]}, {"p": ["A", "d", "g"], "c": [4]}, {"p": ["B", "d", "g"], "c": [5, 6]}]}
+
+
+def same_virtual_names():
+    """Two accounts with different base directories and the *same* virtual names: one session's command is held in its j-th backend
+    call (path checks, open, write, close) while the other session runs the same command on the same virtual path to its end."""
+    out = []
+    login = {1: [["connect", 1], ["send", 1, "USER u1"], ["send", 1, "PASS pw1"]], 2: [["connect", 2], ["send", 2, "USER u2"]]}
+    for a, b in ((1, 2), (2, 1)):
+        for verb, arg in (("STOR", "nn"), ("STOR", "f"), ("APPE", "f"), ("APPE", "d/g"), ("RETR", "f"), ("DELE", "f"), ("MKD", "zz"), ("RMD", "d"), ("RNFR", "f")):
+            for j in (1, 2, 3, 4, 5):
+                def cmd(s, early):
+                    if verb in ("RETR", "STOR", "APPE"):
+                        data = [["dsend", s, [40 + s, 50 + s]]] if verb != "RETR" else []
+                        return [["send", s, "EPSV"], ["dconnect", s]] + (data if early else []) + [["send", s, verb + " " + arg]] + ([] if early else data) + [["deof", s]]
+                    return [["send", s, verb + " " + arg]]
+                ca, cb = cmd(a, True), cmd(b, False)
+                k = next(i for i, x in enumerate(ca) if x[0] == "send" and x[2].startswith(verb))
+                st = login[a] + login[b] + ca[:k] + [["gate", a, None, j], ca[k]] + cb + [["release", a]] + ca[k + 1:]
+                st += [["send", a, "MLST " + arg], ["send", b, "MLST " + arg]]
+                out.append(st)
+    return out
+
+
 def dev_cfg(pool):
     return gen.std_cfg(ns=3)
 
@@ -197,6 +225,9 @@ def run(tier, seed):
     su = same_user()
     corecheck.validate(chk, cfg, gen.STD_TREE, su, label="same-user")
     corecheck.validate(chk, gen.std_cfg(ns=3, backend="async"), gen.STD_TREE, su, label="same-user:async")
+    sv = same_virtual_names()
+    for b in ("memory", "path"):
+        corecheck.validate(chk, gen.std_cfg(ns=2, users=TWIN_USERS, backend=b), TWIN_TREE, sv if tier != "quick" else sv[::2], label="same-virtual-names:" + b)
     sl = slow_logins()
     for tag, extra in (("auth", {"slow_auth": 4}), ("both", {"slow_auth": 3, "slow_user": {"*": 2}})):
         corecheck.validate(chk, gen.std_cfg(ns=2, **extra), gen.STD_TREE, sl, label="slow-logins:" + tag)
